@@ -283,6 +283,13 @@ def finish(run, results, undecided=None):
         bounded.append(entry)
         run.log('bounded stand-in %s: %s' % (' '.join(st['argv']), entry['result']))
         if rc == 1:
+            fails = (out or {}).get('failures') or []
+            open_keys = {k: f for f in open_findings for k in f.get('keys', [])}
+            if fails and all(f.get('finding_key') in open_keys for f in fails if isinstance(f, dict)) and all(isinstance(f, dict) for f in fails):
+                for k in sorted(set(f['finding_key'] for f in fails)):
+                    known_lines.append('KNOWN-FINDING: property=%s %s' % (prop, open_keys[k]['what']))
+                entry['result'] = 'known-finding'
+                continue
             path = os.path.join(REPLAYS, '%s-standin-%s.json' % (prop, '_'.join(st['argv'])))
             w = {'battery': st['argv'], 'failing_input': (out.get('failures') or [None])[0], 'replay_argv': st['argv']}
             json.dump({'property': prop, 'obligation': 'bounded stand-in for ' + st['fn'], 'witness': w, 'tree_hash': tree_hash()}, open(path, 'w'), indent=1)
